@@ -3,7 +3,7 @@
    linear work — is carried by the sanitizer / guard-page / valgrind / callgrind runs of the C06 check on the real code. *)
 From Coq Require Import List NArith ZArith Bool.
 From Coq Require Import Strings.Byte.
-Require Import Bytes Codes Local Local6531 Domain Ip Special Email Api ApiProofs TldProofs EnumTie SafetyProofs LocalA DomainA Local6531A IpA.
+Require Import Bytes Codes Local Local6531 Domain Ip Special Email Api ApiProofs TldProofs EnumTie SafetyProofs LocalA DomainA Local6531A IpA StrA SpecialA.
 Require Gen.GenEnums.
 Import ListNotations.
 
@@ -75,6 +75,14 @@ Theorem C06_ipaddr_access_model :
   ipaddrA buf st (st + length s) = retb (ipaddr s rest).
 Proof. exact ipaddrA_refines. Qed.
 Print Assumptions C06_ipaddr_access_model.
+
+(* is_special_domain with its strchr walks, end[-1], pointer differences, copies into the 64-byte label[] and strncasecmp
+   calls: for every NUL-free domain (end = terminator) no strchr result that is used is NULL, no copy exceeds label[],
+   no read leaves [first byte, terminator], and the answer is the functional model's *)
+Theorem C06_special_domain_access_model :
+  forall s, nulfree s -> specialA (s ++ [NUL]) (length s) = retb (special_domain s).
+Proof. exact specialA_refines. Qed.
+Print Assumptions C06_special_domain_access_model.
 
 (* look-ahead discipline: whatever lies beyond the end pointer can influence a scanner only through the byte at [end] *)
 Theorem C06_local_lookahead :
